@@ -447,7 +447,7 @@ def bounded(tier, seed):
             f = route_case([RULES[a], RULES[b]], MSGS[:6], raising, removed)
             if f:
                 return n, f, {'rules': [RULES[a], RULES[b]], 'raising': raising, 'removed': removed}
-    for _ in range(300 if tier == 'thorough' else 40):
+    for _ in range(3000 if tier == 'thorough' else 40):
         k = rnd.randrange(1, 5)
         rules = [dict(rnd.choice(RULES), **rnd.choice(RULES)) for _ in range(k)]
         raising = tuple(i for i in range(k) if rnd.random() < 0.3)
@@ -472,7 +472,7 @@ def replay(function, clause, model):
 def run_bounded(tier, seed):
     n, f, inp = bounded(tier, seed)
     return {'tool': 'enumeration of rules x signals x add/remove histories (real MessageRouter / client.addMatch / RemoteDBusObject.notifyOnSignal) against a reference matcher',
-            'bound': '16 rules x 11 messages singly, all rule pairs with raising / removed variants, %d random rule sets of up to 4 merged rules; client rule text and proxy signature filter cases' % (300 if tier == 'thorough' else 40),
+            'bound': '16 rules x 11 messages singly, all rule pairs with raising / removed variants, %d random rule sets of up to 4 merged rules; client rule text and proxy signature filter cases' % (3000 if tier == 'thorough' else 40),
             'evaluations': n, 'failures': [] if not f else [{'function': 'txdbus.router', 'clause': 'delivery', 'input': inp, 'detail': f}]}
 
 
